@@ -57,9 +57,33 @@ def decorate(plan, seed, p_clock=0.6, p_int=0.6):
         if o['op'] == 'solve' and rng.random() < 0.4: o['sigint_callback'] = True
     return plan
 
-def gen_plan(seed, tier):
+def _gen_plan(seed, tier):
     plan = solverplan.gen_solver_plan(seed, tier, ID, KNOBS)
     return decorate(plan, seed)
 
-def run_plan(plan):
+def _run_plan(plan):
     return solverplan.run_solver_plan(plan, [oracles.LimitModel], hang_is=('C05', 'solve_did_not_return'), budget=400000)
+
+
+# ---- the one-liner interfaces named by the property (fmin, fmin_powell, diffev, diffev2, lattice, buckshot)
+from .. import wrappers as _wr
+from ..env import sub_rng as _sub_rng
+P_WRAPPER = 0.1
+
+def gen_plan(seed, tier):
+    if _sub_rng(seed, 'plan.kind.wrapper').random() < P_WRAPPER:
+        return _wr.gen_wrapper_plan(seed, tier, ID, interrupts=(ID == 'C05'))
+    return _gen_plan(seed, tier)
+
+def run_plan(plan):
+    if plan.get('kind') == 'wrapper': return _wr.run_wrapper_plan(plan, (ID,))
+    return _run_plan(plan)
+
+_valid0 = valid
+_simplify0 = simplify
+def valid(plan):
+    if plan.get('kind') == 'wrapper': return True
+    return True if _valid0 is None else _valid0(plan)
+def simplify(plan):
+    if plan.get('kind') == 'wrapper': return _wr.simplify_wrapper_plan(plan)
+    return _simplify0(plan)
